@@ -61,26 +61,20 @@ Proof.
   intros j y H. exact (LemmasFe.table_in_range (Fe.vdict L) j y H).
 Qed.
 
-(* LIMITS.  Full statement: an accepted write lies inside every limit parameter of the module (within_all).
-   It fails when a_limits exists together with a_min / a_max (Refuted.v); proved for every other layout, from
-   every state (so in particular after every history, including driver assignments to the limits) *)
-Theorem C18_limits_respected_except_shadowed : forall L s v s' r,
-  LemmasLi.shadowed L = false -> Li.step L s (Li.WriteA v) = (s', ROk r) ->
-  LemmasLi.within_all L s v /\ Li.va s' = v.
-Proof. intros L s v s' r Hs H. exact (LemmasLi.write_accepted_within_all L s v s' r Hs H). Qed.
-
-(* all layouts: inside the datatype range and inside a_limits if it exists, otherwise inside a_min / a_max;
-   a refused write changes nothing *)
-Theorem C18_limits_respected_partial : forall L s v s',
-  (forall r, Li.step L s (Li.WriteA v) = (s', ROk r) -> LemmasLi.within_effective L s v /\ Li.va s' = v /\ r = [v]) /\
+(* LIMITS.  For every layout (any subset of a_min / a_max / a_limits, also all three together) and from every state (so in
+   particular after every history, including driver assignments to the limits): an accepted write lies inside the datatype
+   range and inside EVERY limit parameter of the module, and is stored; a refused write changes nothing.
+   (Until e1c174f a_limits shadowed a_min / a_max; the guard and the witness are gone.) *)
+Theorem C18_limits_respected : forall L s v s',
+  (forall r, Li.step L s (Li.WriteA v) = (s', ROk r) -> LemmasLi.within_all L s v /\ Li.va s' = v /\ r = [v]) /\
   (forall c, Li.step L s (Li.WriteA v) = (s', RErr c) -> s' = s /\ c = 1).
 Proof.
   intros L s v s'. split.
-  - intros r H. exact (LemmasLi.write_accepted_effective L s v s' r H).
+  - intros r H. exact (LemmasLi.write_accepted_within_all L s v s' r H).
   - intros c H. exact (LemmasLi.write_refused_unchanged L s v s' c H).
 Qed.
 
-(* an inverted pair in force (a_limits, or a_min > a_max) refuses every write of the base parameter; a LimitsType
+(* an inverted pair in force (a_limits hi < lo, or a_min > a_max, in any layout) refuses every write of the base parameter; a LimitsType
    parameter refuses an inverted pair and never holds one, whatever the history *)
 Theorem C18_inverted_refused :
   (forall L s v, LemmasLi.inverted_in_force L s -> Li.step L s (Li.WriteA v) = (s, RErr 1)) /\
@@ -160,8 +154,7 @@ Print Assumptions C18_no_fault_no_partial_abort.
 Print Assumptions C18_floatenum_value_from_consistent_init.
 Print Assumptions C18_floatenum_value_after_index_update.
 Print Assumptions C18_closest.
-Print Assumptions C18_limits_respected_except_shadowed.
-Print Assumptions C18_limits_respected_partial.
+Print Assumptions C18_limits_respected.
 Print Assumptions C18_inverted_refused.
 Print Assumptions C18_limits_in_base_range.
 Print Assumptions C18_single_controller_except_failing_self_controlled.
@@ -171,7 +164,6 @@ Print Assumptions Refuted.C18_refuted_struct_assign_without_combined_methods.
 Print Assumptions Refuted.C18_refuted_member_assign_with_combined_methods.
 Print Assumptions Refuted.C18_refuted_floatenum_initial_cache.
 Print Assumptions Refuted.C18_refuted_floatenum_assign_float.
-Print Assumptions Refuted.C18_refuted_limits_tuple_shadows_min_max.
 Print Assumptions Refuted.C18_refuted_struct_write_partial_failure.
 Print Assumptions Refuted.C18_refuted_struct_read_partial_failure.
 Print Assumptions Refuted.C18_refuted_self_controlled_switch_off_fails.
